@@ -50,7 +50,8 @@ def hostile_bodies():
               '(1:2:3:4:5:6:7:8:9)', '(1:)', '(:1)', '(1::::::::::)', '1 ? 2 : 3 ? 4 : 5', 'sin(1)', 'sqrt(-1.0)', '_S(1.5)', '_f(2)', 'int(2.5)', 'float(3)', '$(1.5)', '%(2)',
               'I0++', '++I0', 'I0--', '--I0', 'offsetof(x)', 'timeof(x)', 'foo.bar', 'bool.true', 'I0[3]', '"str"', '"a" + "b"', '-"a"', 'REG[10000]', 'REG[-1]', 'REG[99999999999]', '$REG[1]', '%I0', '$F0']:
         B.append('I0 = %s;' % e); B.append('if (%s) { nop(); }' % e); B.append('ins_3(%s);' % e); B.append('const int K = %s; I0 = K;' % e)
-    B += ['@foo(1);', 'foo(1) async;', 'foo(1) async 3;', '@foo(1) async;', 'return;', 'return 1;', 'return I0 + 1;', 'int f(int x) { return x; }', 'int f(int x);', 'void g() {}', 'inline void h() { nop(); }',
+    B += ['I0 = _S(-10:);', 'I0 = $(1.5:);', 'F0 = _f(3:4);', 'F0 = %(3:);', 'I0 = int(1.5:2.5:);', 'I0 = -(1:2);', 'I0 = ~(1:);', 'F0 = sin(1.0:);', 'I0 = (1:);', 'I0 = ((1:):);', 'I0 += _S(1.5:);',
+          '@foo(1);', 'foo(1) async;', 'foo(1) async 3;', '@foo(1) async;', 'return;', 'return 1;', 'return I0 + 1;', 'int f(int x) { return x; }', 'int f(int x);', 'void g() {}', 'inline void h() { nop(); }',
           'const int f() { return 1; }', 'const inline void q() {}', 'var x;', 'var x = 1;', 'string s = "a";', 'const string s = "a"; ins_3(s);', 'const var v = 1;', 'void v;', 'int x = x;', 'int x; int x;',
           'const int A = B; const int B = A;', 'const int A = A;', 'break;', 'loop { break; break; }', 'goto nowhere;', 'x: x:', 'goto x @ 99999999999;', 'goto x @ -1; x:', 'if (I0) goto x @ 1.5; x:',
           'interrupt[1]:', 'interrupt[-1]:', 'interrupt[I0]:', 'interrupt[1.5]:', 'interrupt["a"]:', '{"E"}: nop();', '{"Q"}: nop();', '{""}: nop();', '{"*-*+"}: nop();', '{"E"}: {"N"}: nop();', '{"E"}: { nop(); }',
